@@ -244,7 +244,7 @@ func TestC12L1(t *testing.T) {
 
 // drawExecutors draws a list of 1-3 distinct executors (in drawn order, not sorted).
 func drawExecutors(rt *rapid.T, users []henv.User, label string) []string {
-	n := rapid.IntRange(1, 3).Draw(rt, label+"N")
+	n := rapid.IntRange(0, 3).Draw(rt, label+"N") // an empty list is accepted too: then nobody is an executor
 	var out []string
 	for len(out) < n {
 		c := users[rapid.IntRange(1, 5).Draw(rt, label)].Str
@@ -503,7 +503,11 @@ func TestC12L2(t *testing.T) {
 						desc = append(desc, "withdraw-by-user")
 					case "deposit-by-executor":
 						// a message of this module whose signer is a bridge executor
-						inner = append(inner, opchildtypes.NewMsgFinalizeTokenDeposit(executors[0], users[0].Str, users[5].Str, coinOf("l2/minted-by-admin", 1000), nextL1, 1, "uinit", nil))
+						depositSigner := users[1].Str
+						if len(executors) > 0 {
+							depositSigner = executors[0]
+						}
+						inner = append(inner, opchildtypes.NewMsgFinalizeTokenDeposit(depositSigner, users[0].Str, users[5].Str, coinOf("l2/minted-by-admin", 1000), nextL1, 1, "uinit", nil))
 						allAuthority = false
 						desc = append(desc, "deposit-by-executor")
 					case "params":
